@@ -227,7 +227,7 @@ func onceDoCall(in ssa.Instruction) (*ssa.Global, *ssa.Function, bool) {
 }
 
 func runC11(p *Program, r *Report) {
-	r.Explanation = "Program-wide who-may-write and dominance analysis on go/ssa (no schedule is run; the argument is the Go memory model's happens-before): (O1) every package-level variable with a store outside package initialisation is written only inside a closure passed to Do of one package-level sync.Once, and EVERY load of it, in any function, is dominated by a Do call on that same Once (or lies in the closure) — an unsynchronised `if lut != nil` fast path is a data race whatever the race detector happens to observe; (O2) every other package-level variable, and every element of package-level slices/arrays/maps, is written only during initialisation, and no sync.Once is copied or reset; (O3) closures run by parallel.RunWorkers write only per-iteration locals and pixels of the row they own (rule S1 of C10/C15: rows are disjoint residue classes), never a captured variable, and only read the source; (O4) no function reachable from the loaders / profile reader writes package-level state; no go statement exists outside go-parallel. Derived: every pair of conflicting accesses is ordered by Once, by goroutine start/WaitGroup, or does not exist. Not decided: races inside caller-supplied image.Image / io.Reader implementations; the race detector's own verdict."
+	r.Explanation = "Program-wide who-may-write and dominance analysis on go/ssa (no schedule is run; the argument is the Go memory model's happens-before): (O1) every package-level variable with a store outside package initialisation is written only by code that every call path reaches through Do of one and the same package-level sync.Once (the function passed to Do and what only it calls; execution-context analysis over static call edges), and EVERY load of it, in any function, is dominated by a Do call on that same Once (or lies in the closure) — an unsynchronised `if lut != nil` fast path is a data race whatever the race detector happens to observe; (O2) every other package-level variable, and every element of package-level slices/arrays/maps, is written only during initialisation, and no sync.Once is copied or reset; (O3) closures run by parallel.RunWorkers write only per-iteration locals and pixels of the row they own (rule S1 of C10/C15: rows are disjoint residue classes), never a captured variable, and only read the source; (O4) no function reachable from the loaders / profile reader writes package-level state; no go statement exists outside go-parallel. Derived: every pair of conflicting accesses is ordered by Once, by goroutine start/WaitGroup, or does not exist. Not decided: races inside caller-supplied image.Image / io.Reader implementations; the race detector's own verdict."
 	r.RuleText = "one instance per package-level variable (classification), per load of a lazily published variable, per worker closure, per entry point"
 	r.Trusted = []string{"go/packages+go/types+go/ssa (x/tools v0.29.0)", "sync.Once.Do publishes the closure's writes to every caller that returns from Do (Go memory model)", "go-parallel RunWorkers starts n goroutines and waits for them (WaitGroup)"}
 	r.Assumptions = []string{"caller-supplied images and readers are not mutated concurrently by the caller"}
